@@ -254,9 +254,18 @@ class Session(object):
 
     # ------------------------------------------------------------------
     def discharge(self, want_models=True):
+        """discharge every obligation.  The query pc /\ not goal is split into
+        its connected components (assertions sharing no uninterpreted symbol
+        are independent): it is unsat iff some component is unsat, and sat iff
+        every component is sat.  Components are small, shared by many
+        obligations and solved once."""
+        from .ctx import symbols_of
         obs = self.obligations
-        jobs = []
         pre = {}
+        comp_jobs = {}           # smt text -> job index
+        jobs = []
+        plan = {}                # obligation index -> list of job indices
+        smts = {}
         for i, o in enumerate(obs):
             g = z3.simplify(o.goal)
             if o.expect == 'valid' and z3.is_true(g):
@@ -265,25 +274,55 @@ class Session(object):
             if o.expect == 'valid' and z3.is_false(g) and not o.pc:
                 pre[i] = ('sat', {}, 'simplifier', 0.0, [])
                 continue
-            smt = solver_mod.to_smt2(o.pc, o.goal, o.expect)
-            jobs.append((i, smt, want_models, o.kind == 'cover'))
-        # identical queries (same path prefix, different option forks) are
-        # solved once
-        uniq = {}
-        for j in jobs:
-            uniq.setdefault(j[1], []).append(j[0])
-        quick = dict((j[0], j[3]) for j in jobs)
-        ujobs = [(idxs[0], smt, want_models, all(quick[i] for i in idxs))
-                 for smt, idxs in uniq.items()]
-        self.unique_queries = len(ujobs)
+            target = z3.Not(o.goal) if o.expect == 'valid' else o.goal
+            asserts = list(o.pc) + [target]
+            smts[i] = None
+            comps = _components(asserts, symbols_of)
+            idxs = []
+            for comp in comps:
+                sv = z3.Solver()
+                for a in comp:
+                    sv.add(a)
+                text = sv.to_smt2()
+                j = comp_jobs.get(text)
+                if j is None:
+                    j = len(jobs)
+                    comp_jobs[text] = j
+                    jobs.append([j, text, want_models, o.kind == 'cover'])
+                elif o.kind != 'cover':
+                    jobs[j][3] = False
+                idxs.append(j)
+            plan[i] = idxs
+        self.unique_queries = len(jobs)
         t0 = time.time()
-        out = solver_mod.solve_all(ujobs)
+        out = solver_mod.solve_all([tuple(j) for j in jobs])
         self.solve_wall = time.time() - t0
-        verdicts = dict(pre)
-        smts = {j[0]: j[1] for j in jobs}
+        jres = {}
         for idx, v, m, backend, secs, log in out:
-            for k, other in enumerate(uniq[smts[idx]]):
-                verdicts[other] = (v, m, backend, secs if k == 0 else 0.0, log)
+            jres[idx] = (v, m, backend, secs, log)
+        charged = set()
+        verdicts = dict(pre)
+        for i, idxs in plan.items():
+            vs = [jres[j] for j in idxs]
+            secs = 0.0
+            for j in idxs:
+                if j not in charged:
+                    charged.add(j)
+                    secs += jres[j][3]
+            log = ['%d component(s): ' % len(idxs) + ' | '.join(
+                ','.join(r[4]) for r in vs if r[0] != 'sat' or len(idxs) == 1)]
+            if any(r[0] == 'unsat' for r in vs):
+                b = [r[2] for r in vs if r[0] == 'unsat'][0]
+                verdicts[i] = ('unsat', None, b, secs, log)
+            elif all(r[0] == 'sat' for r in vs):
+                model = {}
+                for r in vs:
+                    if isinstance(r[1], dict):
+                        model.update(r[1])
+                backends = sorted(set(r[2] for r in vs))
+                verdicts[i] = ('sat', model, '+'.join(backends), secs, log)
+            else:
+                verdicts[i] = ('unknown', None, 'none', secs, log)
         results = {}
         for i, o in enumerate(obs):
             v, m, backend, secs, log = verdicts[i]
@@ -291,18 +330,57 @@ class Session(object):
             r.kind = o.kind
             r.instances += 1
             r.solver_s += secs
-            if r.sample is None and i in smts and o.kind != 'cover':
-                r.sample = smts[i][:1500]
             good = 'unsat' if o.expect == 'valid' else 'sat'
             bad = 'sat' if o.expect == 'valid' else 'unsat'
+            smt = None
+            if (v != good or r.sample is None) and i in plan and o.kind != 'cover':
+                smt = solver_mod.to_smt2(o.pc, o.goal, o.expect)
+                if r.sample is None:
+                    r.sample = smt[:1500]
             if v == good:
                 r.discharged += 1
                 r.by_backend[backend] = r.by_backend.get(backend, 0) + 1
                 if backend == 'simplifier':
                     r.trivial += 1
             elif v == bad:
-                r.failed.append((o, m, log, smts.get(i)))
+                r.failed.append((o, m, log, smt))
             else:
-                r.unknown.append((o, log, smts.get(i)))
+                r.unknown.append((o, log, smt))
         self.results = results
         return results
+
+
+def _components(asserts, symbols_of):
+    """partition assertions into groups connected through shared
+    uninterpreted symbols; ground assertions form their own groups"""
+    parent = {}
+
+    def find(x):
+        while parent[x] != x:
+            parent[x] = parent[parent[x]]
+            x = parent[x]
+        return x
+
+    def union(a, b):
+        ra, rb = find(a), find(b)
+        if ra != rb:
+            parent[ra] = rb
+    syms = []
+    for k, a in enumerate(asserts):
+        sy = symbols_of(a)
+        syms.append(sy)
+        node = ('a', k)
+        parent[node] = node
+        for s_ in sy:
+            n2 = ('s', s_)
+            if n2 not in parent:
+                parent[n2] = n2
+            union(node, n2)
+    groups = {}
+    for k, a in enumerate(asserts):
+        groups.setdefault(find(('a', k)), []).append(a)
+    # deterministic order inside a component (dedupe across paths)
+    out = []
+    for g in groups.values():
+        out.append(sorted(g, key=lambda t: t.sexpr()))
+    return out
